@@ -17,7 +17,6 @@ import (
 func TestVerif_C39_Sampler(t *testing.T) {
 	venum.Begin("C39")
 	defer venum.Finish(t)
-	type idk struct{ stream, request string }
 	ids := []idk{{"s1", ""}, {"s2", "r9"}, {"", "r1"}, {"", "r2"}, {"s1", "r1"}, {"", ""}}
 	// a wider id pool so that both fates occur at every rate
 	for i := 0; i < venum.QT(6, 14); i++ {
@@ -26,6 +25,20 @@ func TestVerif_C39_Sampler(t *testing.T) {
 	rates := []float64{0, 0.1, 0.5, 0.999, 1.0}
 	maxLen := venum.QT(3, 4)
 	venum.Explore(t, venum.Cfg{Name: "sampler-sequences", Shardable: true}, func(x *venum.X) {
+		vfC39SamplerRun(x, rates, ids, maxLen, "")
+	})
+	// Longer histories over a small id pool (two hashed ids, a stream id and a request id): a
+	// decision remembered from one record can only show several records later.
+	small := []idk{ids[6], ids[7], {"s1", ""}, {"", "r1"}}
+	venum.Explore(t, venum.Cfg{Name: "sampler-long-histories-small-pool", Shardable: true}, func(x *venum.X) {
+		vfC39SamplerRun(x, rates, small, venum.QT(4, 6), ":long-history")
+	})
+}
+
+type idk struct{ stream, request string }
+
+func vfC39SamplerRun(x *venum.X, rates []float64, ids []idk, maxLen int, suffix string) {
+	{
 		rate := rates[x.Choose(len(rates), "rate")]
 		var buf bytes.Buffer
 		hook := NewAccessLogHook(&buf, "")
@@ -100,10 +113,10 @@ func TestVerif_C39_Sampler(t *testing.T) {
 				f = 1
 			}
 			if prev, ok := fate[r.key]; ok && prev != f {
-				x.Failf("C39:sampler:split-fate", "records sharing id %q were not all kept or all dropped (rate %v)", r.key, rate)
+				x.Failf("C39:sampler:split-fate"+suffix, "records sharing id %q were not all kept or all dropped (rate %v)", r.key, rate)
 			}
 			fate[r.key] = f
 		}
 		x.Outcome("rate=%v kept=%v", rate, out)
-	})
+	}
 }
